@@ -17,9 +17,11 @@ def main():
                 ids.append(json.loads(line)['id'])
     checks = []
     na = []
+    with open(os.path.join(VERIF, 'vk', 'registered.txt')) as f:
+        registered = set(f.read().split())
     for pid in ids:
         path = os.path.join(VERIF, 'vk', 'props', pid.lower() + '.py')
-        if not os.path.isfile(path):
+        if not os.path.isfile(path) or pid not in registered:
             na.append({'property_id': pid, 'reason': 'no check registered yet: the monitor for this property is designed in DESIGN.md section 2 but is not implemented/validated in this tree (runtime monitoring does apply to it)'})
             continue
         mod = importlib.import_module('vk.props.' + pid.lower())
